@@ -562,7 +562,7 @@ impl Prop for C01 {
     fn meta() -> Meta {
         Meta {
             level: "exploration",
-            rule: "Each run is one host session: a PRNG-driven scheduler issues only protocol-legal calls in the live interpreter state (Line/Tick/Reply/Break/Replace/Seed/Flags) with texts drawn per run (swarm) from grammar-shaped statements, token soup, arbitrary-UTF-8 soup, boundary numerals, nesting 3..100000 deep and flat chains (one operator, separator or list item repeated up to 300000 times); one session in 25 starts with user functions whose bodies are 100-255 parentheses deep and call themselves or each other. An error raised by a bare control statement (GOSUB / GOTO / RETURN / NEXT v) must name the line that statement stands on. distinct_nontrivial counts distinct hashes of the (op kind, result kind, resulting state, error kind) sequence among runs in which at least one fault fired and at least 5 statements executed while Running.",
+            rule: "Each run is one host session: a PRNG-driven scheduler issues only protocol-legal calls in the live interpreter state (Line/Tick/Reply/Break/Replace/Seed/Flags) with texts drawn per run (swarm) from grammar-shaped statements, token soup, arbitrary-UTF-8 soup, boundary numerals, nesting 3..100000 deep and flat chains (one binary or unary operator, separator or list item repeated up to 300000 times); one session in 25 starts with user functions whose bodies are 100-255 parentheses deep and call themselves or each other. An error raised by a bare control statement (GOSUB / GOTO / RETURN / NEXT v) must name the line that statement stands on. distinct_nontrivial counts distinct hashes of the (op kind, result kind, resulting state, error kind) sequence among runs in which at least one fault fired and at least 5 statements executed while Running.",
             real: &["abasic-core (Interpreter, tokenizer, evaluator, program store, error rendering)"],
             stub: &["the host: user/terminal issuing calls, the clock that seeds RND"],
             assumptions: &[
